@@ -1,11 +1,11 @@
-import Cuckoo.Proofs.Defs
+import Cuckoo.Props.C02
 /-!
 # C10 — resize limits and explicit resize requests are honoured exactly
 
 Decision logic of the setters and of `check_resize_validity`, stated on the executable model
 (`Cuckoo/Model`), whose correspondence with `/repo` is checked by K2 on every run.
-(The invariant-level statements — `hashpower() ≤ maximum_hashpower()` in every reachable state,
-contents unchanged by rehash/reserve — are proved in `Props/C02.lean` as parts of `Inv`/`Rel`.)
+The reachable-state statements (`hashpower() ≤ maximum_hashpower()` after any operation sequence, contents
+unchanged by rehash/reserve whatever their outcome) follow from the refinement theorem of C02.
 -/
 namespace Cuckoo.Props.C10
 open Cuckoo Cuckoo.Model
@@ -103,6 +103,27 @@ theorem expandSimple_refused_unchanged [DecidableEq κ] (c : Cfg κ) (locked aut
 theorem rehash_same_noop [DecidableEq κ] (c : Cfg κ) (locked : Bool) (t : Table κ ν) :
     t.rehash c locked t.hp = (t, .ok false) := by
   unfold Table.rehash; simp
+
+/-- **hashpower() never exceeds a configured maximum**: after any sequence of operations from any good state
+(in particular from a fresh table), in normal and locked mode -/
+theorem hp_never_exceeds_limit [DecidableEq κ] (c : Cfg κ) (ops : List (C02.Op κ ν)) (s : C02.MT κ ν) (m : Spec.AMap κ ν)
+    (hg : C02.Good c s m) :
+    (C02.run c s ops).1.t.mhp = noMaxHp ∨ (C02.run c s ops).1.t.hp ≤ (C02.run c s ops).1.t.mhp := by
+  obtain ⟨m', _, hg'⟩ := C02.seq_refines c ops s m hg
+  exact hg'.1.limit
+
+/-- `rehash(n)` / `reserve(n)` leave the contents unchanged whether they succeed or fail, and can only fail with
+maximum_hashpower_exceeded or an allocation failure — never with load_factor_too_low (`ResizeErr` lists it only
+for automatic expansion; see `checkResize_manual_never_lftl` and the repaired temporary-map policy, finding F5) -/
+theorem rehash_keeps_contents [DecidableEq κ] (c : Cfg κ) (locked : Bool) (t : Table κ ν) (m : Spec.AMap κ ν) (n : Nat)
+    (h : Inv c t) (hr : Rel c t m) (hl : locked = true → AllMig t) :
+    Inv c (t.rehash c locked n).1 ∧ Rel c (t.rehash c locked n).1 m :=
+  ⟨(C02.rehash_refines c locked t m n h hr hl).1, (C02.rehash_refines c locked t m n h hr hl).2.1⟩
+
+theorem reserve_keeps_contents [DecidableEq κ] (c : Cfg κ) (locked : Bool) (t : Table κ ν) (m : Spec.AMap κ ν) (n : Nat)
+    (h : Inv c t) (hr : Rel c t m) (hl : locked = true → AllMig t) :
+    Inv c (t.reserve c locked n).1 ∧ Rel c (t.reserve c locked n).1 m :=
+  ⟨(C02.reserve_refines c locked t m n h hr hl).1, (C02.reserve_refines c locked t m n h hr hl).2.1⟩
 
 /-! non-vacuity -/
 example : (Table.init (κ := Nat) (ν := Nat) { S := 4, M := 4, hash := id, simple := true, nothrowMove := true, hpLimit := 20 } 16).hp = 2 := by
